@@ -15,7 +15,7 @@ import fsic
 from fsic.extensions import AliasMixin
 
 from ..core.observe import canon
-from ..core.runner import Acc, guard, CaseTimeout
+from ..core.runner import Acc, guard, CaseTimeout, robust
 
 ID = 'C18'
 LEVEL = 'model_checking'
@@ -106,6 +106,7 @@ def state(m):
     return tuple((n, canon(vars(m)['_' + n])) for n in m.index)
 
 
+@robust()
 def run_history_case(case):
     amap, pref, hist = case['amap'], case['pref'], case['hist']
     out = []
@@ -123,14 +124,15 @@ def run_history_case(case):
         kw_alias.pop(c, None)
         kw_alias[n] = [200.0 + k] * 4
         kw_twin[c] = [200.0 + k] * 4
+    strict = bool(case.get('strict'))
     try:
-        m = cls(list(SPAN), **kw_alias)
+        m = cls(list(SPAN), strict=strict, **kw_alias)
     except Exception as e:
         amb = len({resolve(amap, p) for p in pref}) < len(pref)
         if amb and isinstance(e, ValueError):
             return []
         return [('constructor:%s' % type(e).__name__, 'constructs', repr(e)[:200], 'aliased model cannot be constructed')]
-    twin = _BASE(list(SPAN), **kw_twin)
+    twin = _BASE(list(SPAN), strict=strict, **kw_twin)
     if state(m) != state(twin):
         out.append(('ctor-keyword', 'same as canonical keyword', 'differs', 'constructor keyword through an alias differs'))
         return out
@@ -286,6 +288,20 @@ def run_block(block, tier, seed):
         names = list(amap) + VARS
         singles = [(f, n) for f in WRITE_FORMS for n in names]
         hists = [[h] for h in singles]
+        for hist in hists:  # every single-operation history also on a strict model
+            case = {'amap': amap, 'pref': [], 'hist': [list(h) for h in hist], 'strict': True}
+            acc.evaluations += 1
+            acc.transitions += 1
+            try:
+                with guard(10):
+                    v = run_history_case(case)
+            except CaseTimeout:
+                acc.violation('timeout', case, 'termination', 'timeout')
+                continue
+            acc.traces += 1
+            acc.nontrivial += any(n in amap for _, n in hist)
+            for key, exp, obs, what in v:
+                acc.violation(key + ':strict', case, exp, obs, what)
         chainy = any(v in amap for v in amap.values()) or len(set(amap.values())) < len(amap)
         if tier == 'thorough' or deep_in_quick(amap):
             hists += [[a, b] for a in singles for b in singles if a[1] in amap or b[1] in amap]
